@@ -104,11 +104,28 @@ impl KeyBuilder for HKb {
         u64: core::borrow::Borrow<Q>,
         Q: Hash + Eq + ?Sized,
     {
+        if KB_BUILD_KEY_ONLY.load(Ordering::SeqCst) {
+            // a builder that computes its 128 bits in build_key alone and leaves this method at
+            // the trait's default
+            return 0;
+        }
         let mut c = Capture(0);
         key.hash(&mut c);
         self.of(c.0).1
     }
+    fn build_key<Q>(&self, key: &Q) -> (u64, u64)
+    where
+        u64: core::borrow::Borrow<Q>,
+        Q: Hash + Eq + ?Sized,
+    {
+        let mut c = Capture(0);
+        key.hash(&mut c);
+        self.of(c.0)
+    }
 }
+
+/// the key builder of this run overrides `build_key` only (Cfg::kb_build_key_only)
+pub static KB_BUILD_KEY_ONLY: std::sync::atomic::AtomicBool = std::sync::atomic::AtomicBool::new(false);
 
 pub struct HCoster(pub bool);
 impl Coster for HCoster {
@@ -1160,6 +1177,7 @@ pub fn build(cfg: &Cfg) -> Result<Box<dyn Api>, String> {
             }
         }};
     }
+    KB_BUILD_KEY_ONLY.store(cfg.kb_build_key_only, Ordering::SeqCst);
     IS_ASYNC.store(cfg.flavor != Flavor::Sync, Ordering::SeqCst);
     PLAIN_REMOVE_OK.store(cfg.buffer_size >= 32, Ordering::SeqCst);
     REMOVE_CALLS.store(0, Ordering::SeqCst);
